@@ -15,6 +15,7 @@ NS_XSD = "http://opcfoundation.org/UA/2011/03/UANodeSet.xsd"
 TYPES = xmltree.TYPES
 TRUSTED_BASE = [
     "Lean 4.33.0 kernel; axioms audited (subset of propext, Classical.choice, Quot.sound)",
+    "tie (A): UANodeId.xml_encode (with UANodeId.__str__) is also regenerated from the source on every run (translator/py2lean.py) and Gen/NodeIdTie.lean proves the generated definition equal to encodeText (.nodeId n) b for every NodeId and both settings of include_xmlns (xmlEncode_eq); coverage.translator_tie says which case applied",
     "hand model Model/Value.lean (encodeText = every xml_encode as string concatenation; decodeT = parse_value and helpers) and Model/Xml.lean (XmlLite reader), tied to /repo by this correspondence run: emitted text compared as strings, decoded values compared structurally",
     "CPython: float(str(x)) == x, b64decode(b64encode(b)) == b, strftime on glibc (%Y unpadded), dateutil.parser.parse on the printed format — standard library / third party, sampled here (TextCodecs laws)",
     "lxml as the XML reader of the real parser (the model reads the same infoset); XmlLite is validated against lxml on every emitted fragment",
@@ -282,6 +283,9 @@ def codec_laws(run, n):
 def explore(run):
     rng = run.rng
     thorough = run.tier == "thorough"
+    import core
+    # tie (A): UANodeId.xml_encode regenerated from the source (Gen/NodeIdTie.lean: xmlEncode_eq); never a verdict by itself
+    run.extra["translator_tie"] = core.translator_tie()
     codec_laws(run, 20000 if thorough else 2000)
     corpus = [
         {"t": "Byte", "v": 255}, {"t": "Double", "v": "nan"}, {"t": "Float", "v": "inf"}, {"t": "Double", "v": "-inf"},
